@@ -152,6 +152,30 @@ func ruleSimilarSnapshots(c *eng.Ctx) {
 		n := 0
 		for _, lit := range c.P.Lits(ca) {
 			sims := c.P.CallsTo(lit, "cmd/restic.similarSnapshots")
+			// … or of a private bool helper that says true only behind similarSnapshots == true
+			for _, call := range eng.Calls(lit) {
+				h := call.Common().StaticCallee()
+				if h == nil || len(h.Blocks) == 0 || h.Signature.Results().Len() != 1 || !isBool(h.Signature.Results().At(0).Type()) {
+					continue
+				}
+				inner := c.P.CallsTo(h, "cmd/restic.similarSnapshots")
+				if len(inner) == 0 {
+					continue
+				}
+				okH := true
+				for _, r := range eng.Returns(h) {
+					if k, isK := eng.RetVal(r, 0).(*ssa.Const); isK && k.Value != nil && k.Value.String() == "false" {
+						continue
+					}
+					if eng.FindPath(eng.Entry(h), r, eng.ResultCut(true, 0, inner...)) != nil {
+						okH = false
+					}
+				}
+				if okH {
+					c.Touch(h)
+					sims = append(sims, call)
+				}
+			}
 			if len(sims) == 0 {
 				continue
 			}
